@@ -41,7 +41,13 @@ def insAfter (p n : Node) : List Node → List Node
   | [] => []
   | x :: xs => if x = p then x :: n :: xs else x :: insAfter p n xs
 
-def upd {α : Type} (f : Node → α) (a : Node) (v : α) : Node → α := fun x => if x = a then v else f x
+/-- the nodes met by following `next` pointers from `n` (at most `fuel` of them): what the pointers really say -/
+def follow (next : Node → Option Node) : Nat → Node → List Node
+  | 0, _ => []
+  | fuel + 1, n => n :: (match next n with | none => [] | some m => follow next fuel m)
+
+-- (`noinline`: the compiler must evaluate `v` once, before the closure is built, not inside it on every lookup)
+@[noinline] def upd {α : Type} (f : Node → α) (a : Node) (v : α) : Node → α := fun x => if x = a then v else f x
 
 /-! ## keys and the container's tie rule -/
 
@@ -126,6 +132,8 @@ inductive Res where
   | find (k : Key) (must : Bool) (r : Option Node)
   | trav (seen : List Node) (snap : List Node)
   | misuse
+  | touched (entry : Node)          -- SplitOrder: prepare_bucket only
+  | broken (what : String)          -- SplitOrder: the code would dereference a null pointer here (proved unreachable)
   deriving Repr, DecidableEq
 
 structure Th where
@@ -155,6 +163,10 @@ def validStart (rule : Key → Rule) (L : LSt) (k : Key) (start : Node) : Bool :
   decide (start ∈ L.chain) &&
     (decide ((L.key start).ok < k.ok) || (decide (rule k = .after) && decide ((L.key start).ok ≤ k.ok)))
 
+/-- entry point of a lookup: strictly below the key -/
+def validFind (L : LSt) (k : Key) (start : Node) : Bool :=
+  decide (start ∈ L.chain) && decide ((L.key start).ok < k.ok)
+
 def hasKey (L : LSt) (k : Key) : Bool := L.chain.any (fun x => decide (L.key x = k))
 
 def thStep (rule : Key → Rule) (L : LSt) (t : Tid) (th : Th) : Out :=
@@ -167,7 +179,7 @@ def thStep (rule : Key → Rule) (L : LSt) (t : Tid) (th : Th) : Out :=
         { act := .alloc k t, th := { th with pc := .search, k := k, prev := start, curr := none, new := L.fresh } }
       else { th := th.finish, res := some .misuse }
     | .find k start :: _ =>
-      if validStart rule L k start then
+      if validFind L k start then
         { th := { th with pc := .fwalk, k := k, prev := start, must := hasKey L k } }
       else { th := th.finish, res := some .misuse }
     | .trav :: _ =>
@@ -263,5 +275,539 @@ def dummyKey (b : Nat) : Nat := rev wordBits b / 2 * 2
 def getParent (b : Nat) : Option Nat := if b = 0 then none else some (b - 2 ^ Nat.log2 b)
 
 def parentOf (b : Nat) : Nat := b - 2 ^ Nat.log2 b
+
+
+/-! ## SplitOrder: the unordered containers (bucket table + CAS list), one step per atomic access -/
+namespace SplitOrder
+
+/-- tie rule of the unordered containers: dummy nodes (even order keys) are unique; regular nodes follow the
+container (`allow_multimapping`) -/
+def rule (multi : Bool) (k : Key) : Rule :=
+  if k.ok % 2 = 0 then .uniq else if multi then .before else .uniq
+
+structure Cfg where
+  multi : Bool := false
+  mlfNum : Nat := 4       -- my_max_load_factor as a fraction
+  mlfDen : Nat := 1
+  deriving Repr
+
+inductive Op where
+  | ins (h uk : Nat)
+  | find (h uk : Nat)
+  | touch (h : Nat)            -- prepare_bucket only (the entry of count()/equal_range() of multi containers)
+  | trav
+  deriving Repr, DecidableEq
+
+inductive Kind where
+  | ins | find | touch
+  deriving Repr, DecidableEq
+
+inductive Pc where
+  | idle
+  | ldBc                      -- prepare_bucket: my_bucket_count.load
+  | gb1                       -- get_bucket: if (my_segments[b].load == nullptr)
+  | gb2                       -- get_bucket: return my_segments[b].load
+  | ibCas0                    -- init_bucket(0): my_segments[0].compare_exchange_strong(nullptr, &my_head)
+  | ibLoop                    -- init_bucket(b): while (my_segments[parent].load == nullptr)
+  | ibParent                  -- node_ptr parent = my_segments[parent].load
+  | dSearch | dSetNext | dCas -- insert_dummy_node
+  | ibStore                   -- my_segments[b].store(dummy)
+  | search | setNext | cas    -- search_after / try_insert
+  | szAdd | ldBc2 | casBc     -- my_size.fetch_add, adjust_table_size
+  | fwalk | twalk
+  deriving Repr, DecidableEq
+
+abbrev Res := CasList.Res
+
+structure Th where
+  ops   : List Op := []
+  pc    : Pc := .idle
+  kind  : Kind := .ins
+  h     : Nat := 0
+  k     : Key := ⟨0, 0⟩          -- key of the walk in progress (dummy key during insert_dummy_node)
+  rk    : Key := ⟨0, 0⟩          -- the regular key of the operation
+  b     : Nat := 0                -- bucket of the operation
+  stack : List Nat := []          -- init_bucket frames (innermost first)
+  prev  : Node := 0
+  curr  : Option Node := none
+  new   : Node := 0
+  dres  : Node := 0               -- node to publish in the table (new or already present dummy)
+  sz    : Nat := 0
+  cur   : Nat := 0
+  seen  : List Node := []
+  snap  : List Node := []
+  must  : Bool := false
+  deriving Repr
+
+structure St where
+  L    : LSt := {}
+  bc   : Nat := 8
+  size : Nat := 0
+  slot : Nat → Option Node := fun _ => none
+  ths  : List Th := []
+  log  : List (Tid × Res) := []
+
+structure Out where
+  act  : Act := .nop
+  th   : Th
+  bc   : Option Nat := none            -- new bucket count
+  size : Option Nat := none
+  slot : Option (Nat × Option Node) := none
+  ev   : Option Ev := none
+  res  : Option Res := none
+
+def Th.finish (th : Th) : Th := { th with pc := .idle, ops := th.ops.tail, stack := [] }
+
+def slotVar (b : Nat) : String := s!"slot{b}"
+
+/-- call `init_bucket(b)` -/
+def enterInit (th : Th) (b : Nat) : Th :=
+  { th with stack := b :: th.stack, pc := if b = 0 then .ibCas0 else .ibLoop }
+
+/-- return from `init_bucket` -/
+def leaveInit (th : Th) : Th :=
+  match th.stack.tail with
+  | [] => { th with stack := [], pc := .gb2 }
+  | rest => { th with stack := rest, pc := .ibLoop }
+
+def thStep (cfg : Cfg) (s : St) (t : Tid) (th : Th) : Out :=
+  let L := s.L
+  match th.pc with
+  | .idle =>
+    match th.ops with
+    | [] => { th := th }
+    | .ins h uk :: _ =>
+      { th := { th with pc := .ldBc, kind := .ins, h := h, rk := ⟨regularKey h, uk⟩, stack := [] } }
+    | .find h uk :: _ =>
+      { th := { th with pc := .ldBc, kind := .find, h := h, rk := ⟨regularKey h, uk⟩, stack := [],
+                        must := CasList.hasKey L ⟨regularKey h, uk⟩ } }
+    | .touch h :: _ => { th := { th with pc := .ldBc, kind := .touch, h := h, stack := [] } }
+    | .trav :: _ => { th := { th with pc := .twalk, prev := 0, seen := [0], snap := L.chain } }
+  | .ldBc =>
+    { th := { th with pc := .gb1, b := th.h % s.bc }, ev := some { kind := "load", var := "bc", a := toString s.bc } }
+  | .gb1 =>
+    let v := s.slot th.b
+    let ev : Ev := { kind := "load", var := slotVar th.b, a := ptrName v }
+    match v with
+    | none => { th := enterInit th th.b, ev := some ev }
+    | some _ => { th := { th with pc := .gb2 }, ev := some ev }
+  | .gb2 =>
+    let v := s.slot th.b
+    let ev : Ev := { kind := "load", var := slotVar th.b, a := ptrName v }
+    match v with
+    | none => { th := th.finish, ev := some ev, res := some (.broken "get_bucket returned nullptr") }
+    | some p =>
+      match th.kind with
+      | .find => { th := { th with pc := .fwalk, prev := p, k := th.rk }, ev := some ev }
+      | .touch => { th := th.finish, ev := some ev, res := some (.touched p) }
+      | .ins =>
+        { act := .alloc th.rk t, th := { th with pc := .search, prev := p, k := th.rk, curr := none, new := L.fresh },
+          ev := some ev }
+  | .ibCas0 =>
+    match s.slot 0 with
+    | none => { th := leaveInit th, slot := some (0, some 0),
+                ev := some { kind := "cas", var := slotVar 0, a := "nil", b := nodeName 0, ok := true } }
+    | some v => { th := leaveInit th,
+                  ev := some { kind := "cas", var := slotVar 0, a := "nil", b := nodeName v, ok := false } }
+  | .ibLoop =>
+    match th.stack with
+    | [] => { th := th.finish, res := some (.broken "init_bucket without a frame") }
+    | b :: _ =>
+      let v := s.slot (parentOf b)
+      let ev : Ev := { kind := "load", var := slotVar (parentOf b), a := ptrName v }
+      match v with
+      | none => { th := enterInit th (parentOf b), ev := some ev }
+      | some _ => { th := { th with pc := .ibParent }, ev := some ev }
+  | .ibParent =>
+    match th.stack with
+    | [] => { th := th.finish, res := some (.broken "init_bucket without a frame") }
+    | b :: _ =>
+      let v := s.slot (parentOf b)
+      let ev : Ev := { kind := "load", var := slotVar (parentOf b), a := ptrName v }
+      match v with
+      | none => { th := th.finish, ev := some ev, res := some (.broken "parent bucket is nullptr") }
+      | some p =>
+        { act := .alloc ⟨dummyKey b, 0⟩ t,
+          th := { th with pc := .dSearch, prev := p, k := ⟨dummyKey b, 0⟩, curr := none, new := L.fresh }, ev := some ev }
+  | .dSearch =>
+    let c := L.next th.prev
+    let ev : Ev := { kind := "load", var := nextVar th.prev, a := ptrName c }
+    match c with
+    | none => { th := { th with pc := .dSetNext, curr := none }, ev := some ev }
+    | some c' =>
+      if adv .uniq (L.key c') th.k then { th := { th with prev := c' }, ev := some ev }
+      else if hit .uniq (L.key c') th.k then { th := { th with pc := .ibStore, dres := c' }, ev := some ev }
+      else { th := { th with pc := .dSetNext, curr := some c' }, ev := some ev }
+  | .dSetNext =>
+    { act := .setNext th.new th.curr, th := { th with pc := .dCas },
+      ev := some { kind := "store", var := nextVar th.new, a := ptrName th.curr } }
+  | .dCas =>
+    if L.next th.prev = th.curr then
+      { act := .link th.prev th.new, th := { th with pc := .ibStore, dres := th.new }, res := some (.ins th.k true th.new),
+        ev := some { kind := "cas", var := nextVar th.prev, a := ptrName th.curr, b := nodeName th.new, ok := true } }
+    else
+      { th := { th with pc := .dSearch },
+        ev := some { kind := "cas", var := nextVar th.prev, a := ptrName th.curr, b := ptrName (L.next th.prev), ok := false } }
+  | .ibStore =>
+    match th.stack with
+    | [] => { th := th.finish, res := some (.broken "init_bucket without a frame") }
+    | b :: _ =>
+      { th := leaveInit th, slot := some (b, some th.dres),
+        ev := some { kind := "store", var := slotVar b, a := nodeName th.dres } }
+  | .search =>
+    let c := L.next th.prev
+    let ev : Ev := { kind := "load", var := nextVar th.prev, a := ptrName c }
+    match c with
+    | none => { th := { th with pc := .setNext, curr := none }, ev := some ev }
+    | some c' =>
+      if adv (rule cfg.multi th.k) (L.key c') th.k then { th := { th with prev := c' }, ev := some ev }
+      else if hit (rule cfg.multi th.k) (L.key c') th.k then
+        { th := th.finish, ev := some ev, res := some (.ins th.k false c') }
+      else { th := { th with pc := .setNext, curr := some c' }, ev := some ev }
+  | .setNext =>
+    { act := .setNext th.new th.curr, th := { th with pc := .cas },
+      ev := some { kind := "store", var := nextVar th.new, a := ptrName th.curr } }
+  | .cas =>
+    if L.next th.prev = th.curr then
+      -- the insert takes effect (and its success is logged) here; size / table growth follow
+      { act := .link th.prev th.new, th := { th with pc := .szAdd }, res := some (.ins th.k true th.new),
+        ev := some { kind := "cas", var := nextVar th.prev, a := ptrName th.curr, b := nodeName th.new, ok := true } }
+    else
+      { th := { th with pc := .search },
+        ev := some { kind := "cas", var := nextVar th.prev, a := ptrName th.curr, b := ptrName (L.next th.prev), ok := false } }
+  | .szAdd =>
+    { th := { th with pc := .ldBc2, sz := s.size }, size := some (s.size + 1),
+      ev := some { kind := "fadd", var := "size", a := toString s.size, b := toString (s.size + 1) } }
+  | .ldBc2 =>
+    let ev : Ev := { kind := "load", var := "bc", a := toString s.bc }
+    -- float(total_elements) / float(current_size) > my_max_load_factor
+    -- (the table cannot grow beyond 2^63 buckets: 63 segment pointers; unreachable in practice)
+    if (th.sz + 1) * cfg.mlfDen > cfg.mlfNum * s.bc ∧ s.bc < 2 ^ 63 then { th := { th with pc := .casBc, cur := s.bc }, ev := some ev }
+    else { th := th.finish, ev := some ev }
+  | .casBc =>
+    if s.bc = th.cur then
+      { th := th.finish, bc := some (2 * th.cur),
+        ev := some { kind := "cas", var := "bc", a := toString th.cur, b := toString (2 * th.cur), ok := true } }
+    else
+      { th := th.finish,
+        ev := some { kind := "cas", var := "bc", a := toString th.cur, b := toString s.bc, ok := false } }
+  | .fwalk =>
+    let c := L.next th.prev
+    let ev : Ev := { kind := "load", var := nextVar th.prev, a := ptrName c }
+    match c with
+    | none => { th := th.finish, ev := some ev, res := some (.find th.k th.must none) }
+    | some c' =>
+      if th.k.ok < (L.key c').ok then { th := th.finish, ev := some ev, res := some (.find th.k th.must none) }
+      else if L.key c' = th.k then { th := th.finish, ev := some ev, res := some (.find th.k th.must (some c')) }
+      else { th := { th with prev := c' }, ev := some ev }
+  | .twalk =>
+    let c := L.next th.prev
+    let ev : Ev := { kind := "load", var := nextVar th.prev, a := ptrName c }
+    match c with
+    | none => { th := th.finish, ev := some ev, res := some (.trav th.seen.reverse th.snap) }
+    | some c' => { th := { th with prev := c', seen := c' :: th.seen }, ev := some ev }
+
+def addLog (log : List (Tid × Res)) (t : Tid) : Option Res → List (Tid × Res)
+  | none => log
+  | some r => (t, r) :: log
+
+def applyOut (s : St) (t : Tid) (o : Out) : St :=
+  { L := s.L.apply o.act,
+    bc := o.bc.getD s.bc,
+    size := o.size.getD s.size,
+    slot := match o.slot with | none => s.slot | some (b, v) => upd s.slot b v,
+    ths := s.ths.set t o.th,
+    log := addLog s.log t o.res }
+
+def step (cfg : Cfg) (s : St) (t : Tid) : St :=
+  match s.ths[t]? with
+  | none => s
+  | some th => applyOut s t (thStep cfg s t th)
+
+def initSt (bc : Nat) (progs : List (List Op)) : St := { bc := bc, ths := progs.map (fun p => { ops := p }) }
+
+def sys (cfg : Cfg) (bc : Nat) (progs : List (List Op)) : Sys St :=
+  { init := initSt bc progs, step := step cfg }
+
+end SplitOrder
+
+/-! ## SkipList: the ordered containers -/
+namespace SkipList
+
+structure Cfg where
+  multi : Bool := false
+  maxLevel : Nat := 32
+  deriving Repr
+
+def rule (multi : Bool) : Rule := if multi then .after else .uniq
+
+inductive Op where
+  | ins (k h : Nat)          -- key rank (order key = k + 1) and the height drawn for the node (≥ 1)
+  | find (k : Nat)
+  | trav
+  deriving Repr, DecidableEq
+
+inductive Pc where
+  | idle
+  | ldHead | casHead          -- create_head_if_necessary
+  | ldMaxh                    -- fill_prev_curr_arrays: my_max_height.load
+  | desc                      -- internal_find_position on level `lvl`
+  | setNext0 | cas0           -- level 0: new_node->set_next(0, next); prev->atomic_next(0).CAS
+  | ldMaxh2 | casMaxh         -- raise my_max_height
+  | setNextU | casU           -- upper levels
+  | refind                    -- after a failed upper CAS: internal_find_position(lev, prev_nodes[lev], new_node)
+  | szInc
+  | fLdHead | fLdMaxh | fdesc -- lookups (lower_bound / find)
+  | tLdHead | twalk
+  deriving Repr, DecidableEq
+
+inductive Res where
+  | ins (k : Nat) (ok : Bool) (n : Node)
+  | find (k : Nat) (must : Bool) (r : Option Node)
+  | trav (seen : List Node) (snap : List Node)
+  | misuse                              -- a node height outside 1..max_level (the level generator never returns one)
+  deriving Repr, DecidableEq
+
+structure Th where
+  ops   : List Op := []
+  pc    : Pc := .idle
+  k     : Key := ⟨0, 0⟩
+  hgt   : Nat := 0
+  new   : Node := 0
+  cmh   : Nat := 0                       -- max height read by fill_prev_curr_arrays / lookups
+  lvl   : Nat := 0                       -- level being searched (descending) / refound (ascending)
+  level : Nat := 0                       -- upper level being linked
+  prev  : Node := 0
+  prevs : Nat → Node := fun _ => 0
+  currs : Nat → Option Node := fun _ => none
+  mh    : Nat := 0
+  oldc  : Option Node := none            -- internal_find_multi: old_curr
+  last  : Option Node := none            -- lookups: the last `curr`
+  seen  : List Node := []
+  snap  : List Node := []
+  must  : Bool := false
+
+/-- the shared pointer structure (everything the level-structure invariants talk about) -/
+structure Core where
+  key    : Node → Key := fun _ => ⟨0, 0⟩
+  owner  : Node → Tid := fun _ => 0
+  fresh  : Nat := 1
+  height : Node → Nat := fun _ => 0
+  idx    : Node → Nat := fun _ => 0            -- my_index_number
+  next   : Nat → Node → Option Node := fun _ _ => none
+  chain  : Nat → List Node := fun _ => [0]     -- ghost: per level, the list from the head
+  wins   : List Node := []                     -- ghost: nodes linked on level 0, newest first
+
+structure St where
+  core   : Core := {}
+  maxh   : Nat := 0
+  headSet : Bool := false                      -- my_head_ptr != nullptr
+  size   : Nat := 0
+  ths    : List Th := []
+  log    : List (Tid × Res) := []
+
+def nextVarL (n : Node) (l : Nat) : String := s!"n{n}.next{l}"
+
+def Th.finish (th : Th) : Th := { th with pc := .idle, ops := th.ops.tail }
+
+/-- continue-condition of `internal_find_position(level, prev, key, cmp)` (the `key` overload) -/
+def advKey (multi : Bool) (c k : Key) : Bool := adv (rule multi) c k
+
+/-- continue-condition of the `node` overload used to re-find a position on an upper level: for multi
+containers equal keys are ordered by `index_number` -/
+def advNode (multi : Bool) (c k : Key) (cidx nidx : Nat) : Bool :=
+  if multi then decide (c.ok < k.ok) || (decide (c.ok = k.ok) && decide (cidx ≤ nidx))
+  else decide (c.ok < k.ok)
+
+def hasKey (s : St) (k : Key) : Bool := (s.core.chain 0).any (fun x => decide (s.core.key x = k))
+
+@[noinline] def upd2 {α : Type} (f : Nat → Node → α) (l : Nat) (n : Node) (v : α) : Nat → Node → α :=
+  fun l' x => if l' = l ∧ x = n then v else f l' x
+
+/-- after a level has been searched during `fill_prev_curr_arrays`: record and go one level down -/
+def afterDesc (th : Th) (c : Option Node) : Th :=
+  let th := { th with prevs := upd th.prevs th.lvl th.prev, currs := upd th.currs th.lvl c }
+  if th.lvl = 0 then { th with pc := .setNext0 } else { th with lvl := th.lvl - 1 }
+
+/-- the result of one step: the new global state pieces are applied directly (this model is used for trace
+replay and for the level-structure theorems) -/
+structure Out where
+  st  : St
+  th  : Th
+  ev  : Option Ev := none
+  res : Option Res := none
+
+def thStep (cfg : Cfg) (s : St) (t : Tid) (th : Th) : Out :=
+  let c := s.core
+  match th.pc with
+  | .idle =>
+    match th.ops with
+    | [] => { st := s, th := th }
+    | .ins k h :: _ =>
+      if h = 0 ∨ cfg.maxLevel < h then { st := s, th := th.finish, res := some .misuse } else
+      -- create_value_node: the node exists (with its height) before anything is searched
+      let n := c.fresh
+      { st := { s with core := { c with fresh := n + 1, key := upd c.key n ⟨k + 1, 0⟩, owner := upd c.owner n t,
+                                        height := upd c.height n h, idx := upd c.idx n 0,
+                                        next := fun l x => if x = n then none else c.next l x } },
+        th := { th with pc := .ldHead, k := ⟨k + 1, 0⟩, hgt := h, new := n } }
+    | .find k :: _ =>
+      -- `must`: the key is in the list and published (an insert that has returned has raised my_max_height above 0)
+      { st := s, th := { th with pc := .fLdHead, k := ⟨k + 1, 0⟩, must := hasKey s ⟨k + 1, 0⟩ && decide (0 < s.maxh),
+                                 oldc := none, last := none } }
+    | .trav :: _ => { st := s, th := { th with pc := .tLdHead, prev := 0, seen := [0], snap := c.chain 0 } }
+  | .ldHead =>
+    let ev : Ev := { kind := "load", var := "headptr", a := if s.headSet then nodeName 0 else "nil" }
+    if s.headSet then { st := s, th := { th with pc := .ldMaxh }, ev := some ev }
+    else { st := s, th := { th with pc := .casHead }, ev := some ev }
+  | .casHead =>
+    if s.headSet then
+      { st := s, th := { th with pc := .ldMaxh },
+        ev := some { kind := "cas", var := "headptr", a := "nil", b := nodeName 0, ok := false } }
+    else
+      { st := { s with headSet := true }, th := { th with pc := .ldMaxh },
+        ev := some { kind := "cas", var := "headptr", a := "nil", b := nodeName 0, ok := true } }
+  | .ldMaxh =>
+    let ev : Ev := { kind := "load", var := "maxh", a := toString s.maxh }
+    let cmh := s.maxh
+    -- levels [cmh, hgt): prev = head, curr = nullptr.  (Levels below cmh are all rewritten by the descent before
+    -- they are read and levels ≥ max cmh hgt are never read, so the arrays may as well be reset completely.)
+    let th := { th with cmh := cmh, prevs := fun _ => 0, currs := fun _ => none, prev := 0 }
+    if cmh = 0 then { st := s, th := { th with pc := .setNext0 }, ev := some ev }
+    else { st := s, th := { th with pc := .desc, lvl := cmh - 1 }, ev := some ev }
+  | .desc =>
+    let cn := s.core.next th.lvl th.prev
+    let ev : Ev := { kind := "load", var := nextVarL th.prev th.lvl, a := ptrName cn }
+    match cn with
+    | some c' =>
+      if advKey cfg.multi (c.key c') th.k then { st := s, th := { th with prev := c' }, ev := some ev }
+      else
+        let th' := afterDesc th cn
+        -- level 0 of a unique container: `found(next, key)` ends the insertion
+        if th.lvl = 0 ∧ hit (rule cfg.multi) (c.key c') th.k then
+          { st := s, th := th'.finish, ev := some ev, res := some (.ins (th.k.ok - 1) false c') }
+        else { st := s, th := th', ev := some ev }
+    | none => { st := s, th := afterDesc th cn, ev := some ev }
+  | .setNext0 =>
+    let nx := th.currs 0
+    let pv := th.prevs 0
+    -- multi containers: new_node->set_index_number(prev->index_number() + 1)
+    let iv := if cfg.multi then c.idx pv + 1 else c.idx th.new
+    { st := { s with core := { c with next := upd2 c.next 0 th.new nx, idx := upd c.idx th.new iv } },
+      th := { th with pc := .cas0 },
+      ev := some { kind := "store", var := nextVarL th.new 0, a := ptrName nx } }
+  | .cas0 =>
+    let nx := th.currs 0
+    let pv := th.prevs 0
+    if c.next 0 pv = nx then
+      { st := { s with core := { c with next := upd2 c.next 0 pv (some th.new),
+                                        chain := upd c.chain 0 (insAfter pv th.new (c.chain 0)), wins := th.new :: c.wins } },
+        th := { th with pc := .ldMaxh2 }, res := some (.ins (th.k.ok - 1) true th.new),
+        ev := some { kind := "cas", var := nextVarL pv 0, a := ptrName nx, b := nodeName th.new, ok := true } }
+    else
+      { st := s, th := { th with pc := .ldMaxh },
+        ev := some { kind := "cas", var := nextVarL pv 0, a := ptrName nx, b := ptrName (c.next 0 pv), ok := false } }
+  | .ldMaxh2 =>
+    let ev : Ev := { kind := "load", var := "maxh", a := toString s.maxh }
+    if th.hgt ≤ s.maxh then
+      { st := s, th := { th with pc := if 1 < th.hgt then .setNextU else .szInc, level := 1, mh := s.maxh }, ev := some ev }
+    else { st := s, th := { th with pc := .casMaxh, mh := s.maxh }, ev := some ev }
+  | .casMaxh =>
+    if s.maxh = th.mh then
+      { st := { s with maxh := th.hgt }, th := { th with pc := if 1 < th.hgt then .setNextU else .szInc, level := 1 },
+        ev := some { kind := "cas", var := "maxh", a := toString th.mh, b := toString th.hgt, ok := true } }
+    else
+      -- the failed CAS reloads `max_height`; the loop re-tests `new_height <= max_height`
+      let ev : Ev := { kind := "cas", var := "maxh", a := toString th.mh, b := toString s.maxh, ok := false }
+      if th.hgt ≤ s.maxh then
+        { st := s, th := { th with pc := if 1 < th.hgt then .setNextU else .szInc, level := 1, mh := s.maxh }, ev := some ev }
+      else { st := s, th := { th with mh := s.maxh }, ev := some ev }
+  | .setNextU =>
+    let nx := th.currs th.level
+    { st := { s with core := { c with next := upd2 c.next th.level th.new nx } }, th := { th with pc := .casU },
+      ev := some { kind := "store", var := nextVarL th.new th.level, a := ptrName nx } }
+  | .casU =>
+    let nx := th.currs th.level
+    let pv := th.prevs th.level
+    if c.next th.level pv = nx then
+      { st := { s with core := { c with next := upd2 c.next th.level pv (some th.new),
+                                        chain := upd c.chain th.level (insAfter pv th.new (c.chain th.level)) } },
+        th := { th with pc := if th.level + 1 < th.hgt then .setNextU else .szInc, level := th.level + 1 },
+        ev := some { kind := "cas", var := nextVarL pv th.level, a := ptrName nx, b := nodeName th.new, ok := true } }
+    else
+      { st := s, th := { th with pc := .refind, lvl := th.level, prev := th.prevs th.level },
+        ev := some { kind := "cas", var := nextVarL pv th.level, a := ptrName nx, b := ptrName (c.next th.level pv), ok := false } }
+  | .refind =>
+    let cn := s.core.next th.lvl th.prev
+    let ev : Ev := { kind := "load", var := nextVarL th.prev th.lvl, a := ptrName cn }
+    let stop (c0 : Option Node) : Th :=
+      let th := { th with prevs := upd th.prevs th.lvl th.prev, currs := upd th.currs th.lvl c0 }
+      if th.lvl + 1 < th.hgt then { th with lvl := th.lvl + 1, prev := th.prevs (th.lvl + 1) }
+      else { th with pc := .setNextU }
+    match cn with
+    | some c' =>
+      if advNode cfg.multi (c.key c') th.k (c.idx c') (c.idx th.new) then { st := s, th := { th with prev := c' }, ev := some ev }
+      else { st := s, th := stop cn, ev := some ev }
+    | none => { st := s, th := stop cn, ev := some ev }
+  | .szInc =>
+    { st := { s with size := s.size + 1 }, th := th.finish,
+      ev := some { kind := "fadd", var := "size", a := toString s.size, b := toString (s.size + 1) } }
+  | .fLdHead =>
+    let ev : Ev := { kind := "load", var := "headptr", a := if s.headSet then nodeName 0 else "nil" }
+    if s.headSet then { st := s, th := { th with pc := .fLdMaxh, prev := 0 }, ev := some ev }
+    else { st := s, th := th.finish, ev := some ev, res := some (.find (th.k.ok - 1) th.must none) }
+  | .fLdMaxh =>
+    let ev : Ev := { kind := "load", var := "maxh", a := toString s.maxh }
+    if s.maxh = 0 then { st := s, th := th.finish, ev := some ev, res := some (.find (th.k.ok - 1) th.must none) }
+    else { st := s, th := { th with pc := .fdesc, lvl := s.maxh - 1, cmh := s.maxh }, ev := some ev }
+  | .fdesc =>
+    -- lookups always walk with the strict comparator `my_compare`
+    let cn := s.core.next th.lvl th.prev
+    let ev : Ev := { kind := "load", var := nextVarL th.prev th.lvl, a := ptrName cn }
+    let isEq (c0 : Option Node) : Bool := match c0 with
+      | some c' => decide ((s.core.key c').ok ≤ th.k.ok)      -- found(curr, key) = !(key < curr)
+      | none => false
+    let levelDone (c0 : Option Node) : Out :=
+      if cfg.multi then
+        -- internal_find_multi: return as soon as a level lands on an equal key
+        if c0 ≠ th.oldc ∧ isEq c0 then { st := s, th := th.finish, ev := some ev, res := some (.find (th.k.ok - 1) th.must c0) }
+        else if th.lvl = 0 then { st := s, th := th.finish, ev := some ev, res := some (.find (th.k.ok - 1) th.must none) }
+        else { st := s, th := { th with lvl := th.lvl - 1, oldc := c0 }, ev := some ev }
+      else
+        if th.lvl = 0 then
+          { st := s, th := th.finish, ev := some ev, res := some (.find (th.k.ok - 1) th.must (if isEq c0 then c0 else none)) }
+        else { st := s, th := { th with lvl := th.lvl - 1 }, ev := some ev }
+    match cn with
+    | some c' =>
+      if (s.core.key c').ok < th.k.ok then { st := s, th := { th with prev := c' }, ev := some ev }
+      else levelDone cn
+    | none => levelDone cn
+  | .tLdHead =>
+    let ev : Ev := { kind := "load", var := "headptr", a := if s.headSet then nodeName 0 else "nil" }
+    if s.headSet then { st := s, th := { th with pc := .twalk }, ev := some ev }
+    else { st := s, th := th.finish, ev := some ev, res := some (.trav [0] th.snap) }
+  | .twalk =>
+    let cn := s.core.next 0 th.prev
+    let ev : Ev := { kind := "load", var := nextVarL th.prev 0, a := ptrName cn }
+    match cn with
+    | none => { st := s, th := th.finish, ev := some ev, res := some (.trav th.seen.reverse th.snap) }
+    | some c' => { st := s, th := { th with prev := c', seen := c' :: th.seen }, ev := some ev }
+
+def addLog (log : List (Tid × Res)) (t : Tid) : Option Res → List (Tid × Res)
+  | none => log
+  | some r => (t, r) :: log
+
+def step (cfg : Cfg) (s : St) (t : Tid) : St :=
+  match s.ths[t]? with
+  | none => s
+  | some th =>
+    let o := thStep cfg s t th
+    { o.st with ths := s.ths.set t o.th, log := addLog s.log t o.res }
+
+def initSt (progs : List (List Op)) : St := { ths := progs.map (fun p => { ops := p }) }
+
+def sys (cfg : Cfg) (progs : List (List Op)) : Sys St := { init := initSt progs, step := step cfg }
+
+end SkipList
 
 end TbbVerif.C12
